@@ -59,6 +59,6 @@ def obligations(cx):
 def replay_case(r):
     m = dict(r.get('model') or {})
     from . import procs_native_case as PN
-    c = PN.case_from(r['name'], m)
-    c['coarse'] = True
-    return c
+    cs = PN.case_from(r['name'], m)
+    for c in cs: c['coarse'] = True
+    return cs
